@@ -142,6 +142,8 @@ def run_gcase(case, seed=0, replay_dir=None, known=None):
 
         def interp(inp):
             it = jx.Interp(wrap=G.lift)
+            if hasattr(case, "prepare_interp"):
+                case.prepare_interp(it, inp)
             outs = it.run(closed, [_lift_all(inp[k]) for k in names])
             return jax.tree_util.tree_unflatten(treedef, outs), it
 
